@@ -4,8 +4,10 @@
 (* HandleReplicateAPIEvent and the per-kind builders).                       *)
 (*                                                                           *)
 (* One step = one call of the writer on a FRESH writer (the only state the   *)
-(* builders share are the readiness tables, which belong to C08); the step   *)
-(* is described by a message record `m`:                                     *)
+(* builders share are the readiness tables, which belong to C08) - preceded, *)
+(* in the classes with via = "event" / sib # "none", by the drops that make  *)
+(* the step's drop records and by the drop of a sibling object on that same  *)
+(* writer; the step is described by a message record `m`:                    *)
 (*   shape   "one" | "empty" | "two" | "unknown" (op packs) | "unknownEvent" *)
 (*   kind    the op kind / event kind ("na" for malformed shapes)            *)
 (*   obj     "live" | "dropped": the object whose drop makes the op moot     *)
@@ -32,6 +34,25 @@
 (*   optype  operate-user-role / operate-privilege: which of the two         *)
 (*           opposite requests the message is: "grant" (Grant, AddUserToRole)*)
 (*           or "revoke" (Revoke, RemoveUserFromRole); "na" otherwise        *)
+(*   via     how the records of the dropped objects (obj = "dropped", members  *)
+(*           "D") came to be: "seed" the start-up table of dropped objects,   *)
+(*           "event" this writer handled the drops itself (drop-partition /   *)
+(*           drop-collection events, drop-database message) before the op     *)
+(*   sib     a SIBLING object with a prefix-related name is dropped on the    *)
+(*           same writer between those records and the op: "none" | "db"      *)
+(*           (another database) | "coll" (another collection of the same      *)
+(*           database; kinds with a parent collection) | "member" (for every  *)
+(*           list member another partition of the collection / another        *)
+(*           collection of the database)                                      *)
+(*   rel     "pre": the sibling's name followed by '_' starts the object's    *)
+(*           name (orders / orders_eu), "ext": the other way round; "na"      *)
+(*           without sibling.  The writer's record keys are                   *)
+(*           "<db>_<collection>[_<partition>]" with '_' as the only           *)
+(*           separator and names may contain '_': keys of different objects   *)
+(*           share prefixes.  The names are chosen so that no two keys are    *)
+(*           EQUAL (that limitation is recorded elsewhere, C15_KEYCLASH).     *)
+(*           The statement does not mention siblings: what happens to another *)
+(*           object never changes what the op must become.                    *)
 (* Field CONTENTS (names, index params, passwords, schemas ...) are opaque   *)
 (* here: the driver draws them with rapid inside the class chosen by the     *)
 (* model and reports, per request, one equality bit per field group.         *)
@@ -57,6 +78,12 @@ CONSTANTS MaxOps,       \* steps per plan
           Pres,         \* subset of {"none", "hop"}: replication stamp already present on the source message
           Salts,        \* sampling indices: the driver draws one random content per (class, salt, VERIF_SEED)
           Maps,         \* subset of {"none", "cover", "other"}: name-mapping classes to enumerate
+          Sibs,         \* subset of {"none", "db", "coll", "member"}: sibling drops to enumerate
+          Vias,         \* subset of {"seed", "event"}: origin of the drop records to enumerate
+          SkipBase,     \* TRUE: enumerate only the classes with a sibling drop or via = "event" (plan source of their own)
+          GcByPrefix,   \* negative control (FALSE = as built: records are looked up and kept by their exact key): the drop of an
+                        \*        object garbage-collects the records "below" it by KEY PREFIX - with names containing '_' that also
+                        \*        erases the records of a sibling object whose name starts with the dropped name followed by '_'
           MapRebuildLossy \* negative control (FALSE = as built): when a mapping entry covers the object of a pass-through
                         \*        request (the RBAC builders hand the source request on as it is), the request is REBUILT
                         \*        from its entity with the target names and every field outside the entity is left at its
@@ -140,14 +167,32 @@ MapChoices(k, ms, p) == IF p # "none" \/ Len(ms) > 2 THEN {"none"}
                         ELSE IF k \in NoObjectKinds \cup {"na"} THEN {"none", "other"}
                         ELSE {"none", "cover", "other"}
 OpTypeChoices(k) == IF k \in OpTypeKinds THEN {"grant", "revoke"} ELSE {"na"}
+\* sibling drops: for the kinds that consult the create / drop records (parent object, list members), at every level of the key
+\* above or beside the object; varied without injected failure, earlier-hop stamp or name mapping
+SibLevels(k) == CASE k \in PartListKinds -> {"db", "coll", "member"}
+                  [] k = "Flush" -> {"db", "member"}
+                  [] k \in {"EvCreateCollection", "EvDropCollection"} -> {"db"}
+                  [] k \in ObjKinds -> {"db", "coll"}
+                  [] OTHER -> {}
+SibChoices(k, f, p, mp) == IF f \/ p # "none" \/ mp # "none" THEN {"none"} ELSE {"none"} \cup SibLevels(k)
+RelChoices(sb) == IF sb = "none" THEN {"na"} ELSE {"pre", "ext"}
+\* the origin of the drop records matters only when there is one
+HasDropped(o, ms) == o = "dropped" \/ \E i \in 1..Len(ms) : ms[i] = "D"
+ViaChoices(o, ms, f, p, mp) == IF HasDropped(o, ms) /\ ~f /\ p = "none" /\ mp = "none" THEN {"seed", "event"} ELSE {"seed"}
+IsBase(m) == m.sib = "none" /\ m.via = "seed"
 MessagesOf(k) ==
     {m \in [shape : {"one"}, kind : {k}, obj : ObjChoices(k), members : MemberChoices(k), fail : FailChoices,
             schema : SchemaChoices(k), rid : RidChoices(k), salt : Salts, pre : Pres, map : Maps,
-            optype : OpTypeChoices(k)] :
+            optype : OpTypeChoices(k), sib : Sibs, rel : {"na", "pre", "ext"}, via : Vias] :
         /\ m.pre \in PreChoices(k, m.obj, m.members, m.fail)
-        /\ m.map \in MapChoices(k, m.members, m.pre)}
+        /\ m.map \in MapChoices(k, m.members, m.pre)
+        /\ m.sib \in SibChoices(k, m.fail, m.pre, m.map)
+        /\ m.rel \in RelChoices(m.sib)
+        /\ m.via \in ViaChoices(m.obj, m.members, m.fail, m.pre, m.map)
+        /\ (SkipBase => ~IsBase(m))}
 MalformedMsg(s, z, mp) == [shape |-> s, kind |-> "na", obj |-> "live", members |-> <<>>, fail |-> FALSE, schema |-> "na",
-                           rid |-> FALSE, salt |-> z, pre |-> "none", map |-> mp, optype |-> "na"]
+                           rid |-> FALSE, salt |-> z, pre |-> "none", map |-> mp, optype |-> "na",
+                           sib |-> "none", rel |-> "na", via |-> "seed"]
 
 VARIABLES cur,   \* the message of the last step
           res,   \* its observable result [calls |-> Seq(request), err |-> BOOLEAN]
@@ -178,14 +223,28 @@ Request(m, list) ==
 \* HandleOpMessagePack: pack shape check before anything else
 BuildMalformed(m) == [calls |-> <<>>, err |-> TRUE]
 
+\* The create / drop records: as built they are stored and looked up by the exact key of their object and never removed, so the
+\* drop of a sibling (dropCollection / dropPartition / dropDatabase handled in between) leaves them alone, however the names are
+\* related.  Control GcByPrefix: the sibling's drop erases every record whose key starts with the sibling's key followed by '_'
+\* (rel = "pre": that is the object itself and everything below it).  An object without records is probed downstream; the
+\* model follows the harness' downstream, which answers every probe with "exists" (a downstream that has applied the drop
+\* answers "absent" and the op is rejected as not ready - the contract is broken either way).
+Erased(m) == IF GcByPrefix /\ m.rel = "pre"
+             THEN CASE m.sib \in {"db", "coll"} -> {"parent", "members"}
+                    [] m.sib = "member" -> {"members"}
+                    [] OTHER -> {}
+             ELSE {}
+EffObj(m) == IF "parent" \in Erased(m) THEN "live" ELSE m.obj
+EffMembers(m) == IF "members" \in Erased(m) THEN [i \in 1..Len(m.members) |-> "L"] ELSE m.members
+
 \* builders that call WaitObjReady once for the parent object and skip when it is dropped
 BuildObj(m) ==
-    IF m.obj = "dropped" THEN [calls |-> <<>>, err |-> FALSE]
+    IF EffObj(m) = "dropped" THEN [calls |-> <<>>, err |-> FALSE]
     ELSE [calls |-> <<Request(m, <<>>)>>, err |-> m.fail]
 
 \* flush / loadPartitions / releasePartitions: member-wise WaitObjReady, dropped members removed, nothing left => skip
 BuildList(m) ==
-    LET live == IF m.obj = "dropped" THEN <<>> ELSE LiveSeqFrom(m.members, 1) IN
+    LET live == IF EffObj(m) = "dropped" THEN <<>> ELSE LiveSeqFrom(EffMembers(m), 1) IN
     IF live = <<>> THEN [calls |-> <<>>, err |-> FALSE]
     ELSE [calls |-> <<Request(m, live)>>, err |-> m.fail]
 
@@ -205,7 +264,7 @@ Step(m) == /\ cur' = m /\ res' = Build(m)
 Bounded == Len(hist) < MaxOps
 
 \* one action per builder family of channel_writer.go (the per-kind tables CallKind / Req give the request of each kind)
-DoMalformed == Bounded /\ \E s \in Malformed, z \in Salts, mp \in Maps \cap MapChoices("na", <<>>, "none") :
+DoMalformed == Bounded /\ ~SkipBase /\ \E s \in Malformed, z \in Salts, mp \in Maps \cap MapChoices("na", <<>>, "none") :
                    Step(MalformedMsg(s, z, mp))
 DoDatabase  == Bounded /\ \E k \in DbKinds : \E m \in MessagesOf(k) : Step(m)
 DoRbac      == Bounded /\ \E k \in RbacKinds : \E m \in MessagesOf(k) : Step(m)
@@ -230,6 +289,9 @@ GroupOK(m, c, g, kf) ==
 \* fields added later are optional in recorded steps (older replay files)
 OpTypeOf(m) == IF "optype" \in DOMAIN m THEN m.optype ELSE "na"
 MapOf(m) == IF "map" \in DOMAIN m THEN m.map ELSE "none"
+SibOf(m) == IF "sib" \in DOMAIN m THEN m.sib ELSE "none"
+RelOf(m) == IF "rel" \in DOMAIN m THEN m.rel ELSE "na"
+ViaOf(m) == IF "via" \in DOMAIN m THEN m.via ELSE "seed"
 
 ReqOK(m, c, kf) ==
     /\ c.kind = CallKind(m.kind)                        \* a request of the corresponding kind
